@@ -133,6 +133,8 @@ func foldValue(e ssa.Value, v map[ssa.Value]bool, c int, depth int) (pval, bool)
 		return pval{}, false
 	}
 	switch x := e.(type) {
+	case *ssa.Global:
+		return pval{tbl: x}, true // the address of a package-level table handed to a helper
 	case *ssa.Const:
 		if x.Value == nil {
 			return pval{}, false
@@ -372,7 +374,7 @@ func (a *analyzer) tokenCharset(fn *ssa.Function) (*TokenCharset, string) {
 	tc := &TokenCharset{}
 	first := a.analyseRead(sites[0])
 	if !first.Unknown.empty() {
-		return nil, "first read's predicate could not be evaluated"
+		return nil, "first read's predicate could not be evaluated for " + first.Unknown.String()
 	}
 	self := first.selfLoopSet()
 	if len(sites) == 1 {
